@@ -1,8 +1,10 @@
 package main
 
 import (
+	"fmt"
 	"go/ast"
 	"go/types"
+	"regexp"
 	"strings"
 )
 
@@ -21,6 +23,7 @@ type State struct {
 	lastRelease *State
 	defers      []deferred
 	needRetCut  bool
+	retAt       ast.Node
 }
 
 func (s *State) Copy() *State {
@@ -34,6 +37,7 @@ func (s *State) Copy() *State {
 		lastRelease: s.lastRelease,
 		defers:      append([]deferred(nil), s.defers...),
 		needRetCut:  s.needRetCut,
+		retAt:       s.retAt,
 	}
 	for k, v := range s.vars {
 		n.vars[k] = v
@@ -105,10 +109,32 @@ func (x *Exec) heapSetAt(st *State, key, sort, term, ref string) {
 	x.vc.writes[key] = true
 	seq, isFresh := x.freshRefs[ref]
 	for _, d := range x.discStack {
-		if !isFresh || seq <= d.n0 {
-			d.nonFresh[key] = true
+		if isFresh && seq > d.n0 {
+			continue // object allocated inside the scope
+		}
+		if stableTerm(ref, d.sym0) {
+			if d.writeRefs[key] == nil {
+				d.writeRefs[key] = map[string]bool{}
+			}
+			d.writeRefs[key][ref] = true
+			continue
+		}
+		d.nonFresh[key] = true
+	}
+}
+
+var numRe = regexp.MustCompile(`\$([0-9]+)`)
+
+// stableTerm: the term only mentions symbols that existed before the scope started.
+func stableTerm(term string, sym0 int) bool {
+	for _, m := range numRe.FindAllStringSubmatch(term, -1) {
+		n := 0
+		fmt.Sscan(m[1], &n)
+		if n > sym0 {
+			return false
 		}
 	}
+	return true
 }
 
 func (x *Exec) heapHavoc(st *State, key string) {
@@ -123,6 +149,12 @@ func (x *Exec) heapHavoc(st *State, key string) {
 // heapHavocFresh havocs key but keeps the content at all objects allocated before allocBefore
 // (the code being summarised writes this location only at objects it allocated itself).
 func (x *Exec) heapHavocFresh(st *State, key, allocBefore string) {
+	x.heapHavocFrame(st, key, allocBefore, nil)
+}
+
+// heapHavocFrame havocs key but keeps its content at every object that existed before
+// (p < allocBefore) and is not one of the explicitly written objects refs.
+func (x *Exec) heapHavocFrame(st *State, key, allocBefore string, refs []string) {
 	sort := x.e.keys[key]
 	old := st.heap[key]
 	if old == "" {
@@ -131,7 +163,11 @@ func (x *Exec) heapHavocFresh(st *State, key, allocBefore string) {
 	n := x.vc.Fresh("H."+key, sort)
 	st.heap[key] = n
 	x.vc.writes[key] = true
-	x.vc.Fact("(forall ((p Int)) (! (=> (< p " + allocBefore + ") (= (select " + n + " p) (select " + old + " p))) :pattern ((select " + n + " p))))")
+	cond := "(< p " + allocBefore + ")"
+	for _, r := range refs {
+		cond = And(cond, Not(Eq("p", r)))
+	}
+	x.vc.Fact("(forall ((p Int)) (! (=> " + cond + " (= (select " + n + " p) (select " + old + " p))) :pattern ((select " + n + " p))))")
 }
 
 // materialize makes every registry key explicit in st.
@@ -166,6 +202,10 @@ func (x *Exec) isThreadLocalKey(key string) bool {
 func (x *Exec) havocShared(st *State) {
 	x.materialize(st)
 	oldAlloc := st.heap[allocKey]
+	before := make(map[string]string, len(st.heap))
+	for k, v := range st.heap {
+		before[k] = v
+	}
 	for _, k := range sortedKeys(x.e.keys) {
 		if x.isThreadLocalKey(k) {
 			continue
@@ -175,9 +215,87 @@ func (x *Exec) havocShared(st *State) {
 	if oldAlloc != "" {
 		x.vc.Fact("(>= " + st.heap[allocKey] + " " + oldAlloc + ")")
 	}
+	// objects this call allocated (or received fresh) and never published stay as they were:
+	// no other goroutine can hold a reference to them.
+	for _, ref := range sortedKeys(x.owned) {
+		if x.escaped[ref] {
+			continue
+		}
+		t := x.owned[ref]
+		if _, ok := t.Underlying().(*types.Map); ok {
+			domK, valK, _, _ := x.mapKeys(t)
+			for _, k := range []string{domK, valK} {
+				if before[k] != "" && st.heap[k] != before[k] {
+					st.Assume(Eq(Select(st.heap[k], ref), Select(before[k], ref)))
+				}
+			}
+			continue
+		}
+		prefix := "Cell." + cellName(t)
+		if sname, stt := x.structInfo(t); stt != nil && x.e.kindOf(t) == KStruct {
+			prefix = sname + "."
+		}
+		for _, k := range sortedKeys(x.e.keys) {
+			if strings.HasPrefix(k, prefix) && before[k] != "" && st.heap[k] != before[k] && !strings.HasSuffix(x.e.keys[k], "Bool))") && !strings.HasSuffix(x.e.keys[k], "Int))") {
+				st.Assume(Eq(Select(st.heap[k], ref), Select(before[k], ref)))
+			}
+		}
+	}
+}
+
+// own registers ref as an object owned by the executing call (t: map type or pointee type).
+func (x *Exec) own(ref string, t types.Type) {
+	if t != nil {
+		x.owned[ref] = t
+	}
+}
+
+// escapes marks owned references contained in v as published.
+func (x *Exec) escapes(v *Val) {
+	if v == nil {
+		return
+	}
+	switch v.K {
+	case KInt:
+		if _, ok := x.owned[v.S]; ok {
+			x.escaped[v.S] = true
+		}
+	case KStruct, KSlice:
+		for _, f := range v.F {
+			x.escapes(f)
+		}
+	case KTuple:
+		for _, e := range v.Elems {
+			x.escapes(e)
+		}
+	}
 }
 
 const allocKey = "g.$alloc"
+
+var baseReadRe = regexp.MustCompile(`^\(select H\.[A-Za-z0-9_.]+\$0 `)
+var versionRe = regexp.MustCompile(`\$([0-9]+)`)
+
+// isBaseOnly: every heap array mentioned in the term is an initial version ($0) and no fresh
+// symbol (numbered > 0) other than parameters occurs: the term is a pure function of the entry state.
+func isBaseOnly(term string) bool {
+	if !strings.HasPrefix(term, "(select ") {
+		return false
+	}
+	for _, m := range versionRe.FindAllStringSubmatch(term, -1) {
+		if m[1] != "0" {
+			// parameters are numbered low but are also entry-state values; accept symbols that are not heap versions
+			continue
+		}
+	}
+	// reject if any heap symbol with a non-zero version occurs
+	for _, m := range regexp.MustCompile(`(H|m)\.[A-Za-z0-9_.\[\]*]+\$([0-9]+)`).FindAllStringSubmatch(term, -1) {
+		if m[2] != "0" || m[1] == "m" {
+			return false
+		}
+	}
+	return !strings.Contains(term, "ref.") && !strings.Contains(term, "res.") && !strings.Contains(term, "rangekey")
+}
 
 func (x *Exec) alloc(st *State, hint string) string {
 	top := x.heapGet(st, allocKey, SInt)
@@ -194,6 +312,11 @@ func (x *Exec) alloc(st *State, hint string) string {
 // allocated records the fact that a reference value read from the heap is below the allocation top.
 func (x *Exec) allocated(st *State, term string) {
 	top := x.heapGet(st, allocKey, SInt)
+	// a value read from the untouched initial heap denotes an object that existed at entry
+	if isBaseOnly(term) {
+		top = baseSym(allocKey)
+		x.vc.Declare(top, SInt)
+	}
 	x.vc.Fact(And("(>= "+term+" 0)", "(< "+term+" "+top+")"))
 }
 
